@@ -97,6 +97,9 @@ fn type_name(i: &Item) -> Option<String> {
 }
 
 fn insert_type(items: &mut Vec<Item>, name: &str, kind: &str, k: usize) -> bool {
+    if kind == "opaque_uses" {
+        return insert_uses(items, name, k);
+    }
     let ident = syn::Ident::new(name, proc_macro2::Span::call_site());
     // "opaque_impl": an opaque with its own impl block (impl-level abi_rename, a plain method and a
     // callback-taking method) — still referenced by nothing else
@@ -167,6 +170,142 @@ fn insert_type(items: &mut Vec<Item>, name: &str, kind: &str, k: usize) -> bool 
     done
 }
 
+fn attr_path(a: &syn::Attribute) -> Vec<String> {
+    a.path().segments.iter().map(|x| x.ident.to_string()).collect()
+}
+
+/// "opaque_uses": in EVERY original bridge module, an unreferenced opaque `<name>M<j>` whose methods take and return
+/// up to six of that module's own types (enums and plain structs by value and inside Option, opaques behind & and
+/// Option<&>). Nothing refers to the inserted types, so every pre-existing file must stay as it is; what the insertion
+/// adds is *other users* of existing types, generated before or after them depending on the name. `j` is the module's
+/// rank among the sorted original bridge paths and all choices depend on the original source only.
+fn insert_uses(items: &mut Vec<Item>, name: &str, k: usize) -> bool {
+    let mut paths: Vec<String> = vec![];
+    collect_bridge_paths(items, String::new(), &mut paths);
+    let mut sorted = paths.clone();
+    sorted.sort();
+    fn walk(items: &mut Vec<Item>, prefix: String, sorted: &[String], name: &str, k: usize, done: &mut bool) {
+        for it in items.iter_mut() {
+            if let Item::Mod(m) = it {
+                let p = if prefix.is_empty() { m.ident.to_string() } else { format!("{}::{}", prefix, m.ident) };
+                if is_bridge(&m.attrs) {
+                    if m.ident.to_string().contains("_verif_shadow_") {
+                        continue;
+                    }
+                    let j = match sorted.iter().position(|x| *x == p) {
+                        Some(j) => j,
+                        None => continue,
+                    };
+                    use quote::ToTokens;
+                    // a type (or module) some backend disables cannot be used by a type every backend sees
+                    let disables = |attrs: &[syn::Attribute]| attrs.iter().any(|a| a.to_token_stream().to_string().contains("disable"));
+                    if disables(&m.attrs) {
+                        continue;
+                    }
+                    let inner = match &mut m.content {
+                        Some((_, inner)) => inner,
+                        None => continue,
+                    };
+                    // usable local types: (name, kind), no generics, no cfg, not out-only, not added by this harness
+                    let mut local: Vec<(String, &'static str)> = vec![];
+                    for i in inner.iter() {
+                        match i {
+                            Item::Struct(s) => {
+                                let n = s.ident.to_string();
+                                let ap: Vec<Vec<String>> = s.attrs.iter().map(attr_path).collect();
+                                if n.contains("VerifExtra") || disables(&s.attrs) || !s.generics.params.is_empty() || ap.iter().any(|a| a == &["cfg"] || a == &["diplomat", "out"] || a == &["diplomat", "opaque_mut"]) {
+                                    continue;
+                                }
+                                if ap.iter().any(|a| a == &["diplomat", "opaque"]) {
+                                    local.push((n, "opaque"));
+                                } else if matches!(s.fields, syn::Fields::Named(_)) {
+                                    local.push((n, "struct"));
+                                }
+                            }
+                            Item::Enum(e) => {
+                                let n = e.ident.to_string();
+                                let ap: Vec<Vec<String>> = e.attrs.iter().map(attr_path).collect();
+                                if n.contains("VerifExtra") || disables(&e.attrs) || !e.generics.params.is_empty() || ap.iter().any(|a| a == &["cfg"] || a == &["diplomat", "opaque"]) {
+                                    continue;
+                                }
+                                local.push((n, "enum"));
+                            }
+                            _ => {}
+                        }
+                    }
+                    local.sort();
+                    local.dedup();
+                    let ident = syn::Ident::new(&format!("{}M{}", name, j), proc_macro2::Span::call_site());
+                    let mut methods: Vec<syn::ImplItem> = vec![parse_quote! { pub fn verif_get(&self) -> u8 { self.0 } }];
+                    let mut chosen: Vec<usize> = vec![];
+                    for t in 0..local.len().min(6) {
+                        let c = (k + 3 * j + t) % local.len();
+                        if !chosen.contains(&c) {
+                            chosen.push(c);
+                        }
+                    }
+                    for (t, c) in chosen.iter().enumerate() {
+                        let (tn, kind) = &local[*c];
+                        let ty = syn::Ident::new(tn, proc_macro2::Span::call_site());
+                        let f1 = syn::Ident::new(&format!("verif_use{}", t), proc_macro2::Span::call_site());
+                        let f2 = syn::Ident::new(&format!("verif_use_opt{}", t), proc_macro2::Span::call_site());
+                        let plain = (k / 2 + t + j) % 2 == 0;
+                        match *kind {
+                            "opaque" => {
+                                if plain {
+                                    methods.push(parse_quote! { pub fn #f1(&self, x: &#ty) -> u8 { let _ = x; self.0 } });
+                                }
+                                methods.push(parse_quote! { pub fn #f2(x: Option<&#ty>) -> bool { x.is_some() } });
+                            }
+                            _ => {
+                                if plain {
+                                    methods.push(parse_quote! { pub fn #f1(&self, x: #ty) -> u8 { let _ = x; self.0 } });
+                                }
+                                methods.push(parse_quote! {
+                                    #[diplomat::attr(not(supports = option), disable)]
+                                    pub fn #f2(x: Option<#ty>) -> bool { x.is_some() }
+                                });
+                            }
+                        }
+                    }
+                    // constructs that need no local type but for which backends keep helper types or shared
+                    // definitions: primitive options, primitive slices, unit-error results (two of five per module)
+                    for t in 0..2usize {
+                        let f = syn::Ident::new(&format!("verif_common{}", t), proc_macro2::Span::call_site());
+                        match (k / 5 + 2 * j + 3 * t) % 5 {
+                            0 => methods.push(parse_quote! {
+                                #[diplomat::attr(not(supports = option), disable)]
+                                pub fn #f(x: Option<u8>) -> Option<u8> { x }
+                            }),
+                            1 => methods.push(parse_quote! { pub fn #f(x: &[u16]) -> usize { x.len() } }),
+                            2 => methods.push(parse_quote! { pub fn #f(&self) -> Result<i32, ()> { Ok(self.0 as i32) } }),
+                            3 => methods.push(parse_quote! { pub fn #f(x: &mut [f64]) { let _ = x; } }),
+                            _ => methods.push(parse_quote! { pub fn #f(x: &[u8]) -> u8 { x.len() as u8 } }),
+                        }
+                    }
+                    let ty_item: Item = parse_quote! { #[diplomat::opaque] pub struct #ident(u8); };
+                    let impl_item: Item = parse_quote! { impl #ident { #(#methods)* } };
+                    let at = (k / 3 + j) % (inner.len() + 1);
+                    inner.insert(at, ty_item);
+                    let at2 = if (k / 7 + j) % 2 == 0 { at + 1 } else { inner.len() };
+                    inner.insert(at2, impl_item);
+                    *done = true;
+                } else if let Some((_, inner)) = &mut m.content {
+                    walk(inner, p, sorted, name, k, done);
+                }
+            }
+        }
+    }
+    let mut done = false;
+    walk(items, String::new(), &sorted, name, k, &mut done);
+    done
+}
+
+/// is `n` the name of a type `insert_type:<name>:…` added (`<name>` itself or, for opaque_uses, `<name>M<j>`)?
+fn is_inserted_name(n: &str, name: &str) -> bool {
+    n == name || (n.starts_with(name) && n[name.len()..].starts_with('M') && n[name.len() + 1..].chars().all(|c| c.is_ascii_digit()) && n.len() > name.len() + 1)
+}
+
 /// paths ("a::b::ffi") of the original bridge modules, in the order `for_each_bridge` visits them
 fn collect_bridge_paths(items: &[Item], prefix: String, out: &mut Vec<String>) {
     for it in items {
@@ -189,12 +328,14 @@ fn remove_type(items: &mut Vec<Item>, name: &str) {
             inner.retain(|i| {
                 if let Item::Impl(im) = i {
                     if let syn::Type::Path(tp) = &*im.self_ty {
-                        if tp.path.is_ident(name) {
-                            return false;
+                        if let Some(id) = tp.path.get_ident() {
+                            if is_inserted_name(&id.to_string(), name) {
+                                return false;
+                            }
                         }
                     }
                 }
-                type_name(i).as_deref() != Some(name)
+                !type_name(i).map(|n| is_inserted_name(&n, name)).unwrap_or(false)
             });
         }
     });
